@@ -35,6 +35,20 @@ def cases(tier, seed):
         pmax = b["pmax"] if K == "K0" else b["pmax_seed_alphabet"]
         for p, U in al.knotvectors(K, pmax, b["kmax"]):
             yield (K, p, U, b["tuples_per_size"])
+    for p, U in high_vectors(tier):
+        yield ("high", p, U, 0)
+
+
+def high_vectors(tier):
+    a, b, cands = al.ALPHABETS["K0"]
+    pats = [(4, (5, 1, 1)), (4, (1, 1, 5)), (4, (1, 5, 1)), (4, (5, 1))]
+    if tier != "quick":
+        pats += [(5, (6, 1, 1)), (5, (1, 1, 6)), (4, (2, 5, 1, 1)), (3, (4, 1, 1))]
+    for p, ms in pats:
+        U = [a] * (p + 1)
+        for x, m in zip(cands, ms):
+            U += [x] * m
+        yield p, tuple(U + [b] * (p + 1))
 
 
 def describe(case):
@@ -130,6 +144,27 @@ def run_case(case, res):
     U = list(U)
     n = len(U) - p - 1
     gen = al.generic_points(n)
+    if K == "high":
+        # fit_function with its default nodes must reproduce members of the space (every span needs enough nodes)
+        for kindf, coef in [("generic", gen), ("basis", [F(int(i == 0)) for i in range(n)]), ("basis", [F(int(i == n - 1)) for i in range(n)])]:
+            for rep in ("frac", "float"):
+                res.transition()
+                D = rb.denote(U, coef, None, p)
+                c = lib.Curve(lib.conv(U, rep))
+                fn = (lambda u, D=D: D.value(u)) if rep == "frac" else (lambda u, D=D: float(D.value(lib.to_frac(float(u)))))
+                o = lib.outcome(c.fit_function, fn)
+                tags = dict(api="fit_function", rational=False, data=kindf, rep=rep, block="high")
+                where = f"U={U} fit_function(member of the space, coefficients {coef}) rep={rep}"
+                res.state((tuple(U), "fit_function", kindf, rep))
+                res.nontriv((tuple(U), kindf, rep))
+                res.outcome(f"fit_function_high:{'ok' if o[0] == 'ok' else o[1]}")
+                if o[0] != "ok":
+                    res.violation("exception", f"{where}: raised {o[1]}: {o[2]}", exc=o[1], **tags)
+                elif rep == "frac" and not lib.curve_pw(c).same(D):
+                    res.violation("not_reproduced", f"{where}: got {c.ctrlpoints}", **tags)
+                elif rep == "float" and any(not lib.close(g, e, 1e-7) for g, e in zip(c.ctrlpoints, coef)):
+                    res.violation("not_reproduced", f"{where}: got {c.ctrlpoints}", **tags)
+        return res.observe(sorted(res.outcomes.items()))
     for W in (None, al.generic_weights(n)):
         Dgen = rb.denote(U, gen, W, p)
         for nodes in node_tuples(U, p, n, per_size):
